@@ -118,25 +118,10 @@ def Linked (p : Pool) : Prop :=
 
 theorem hook_fst {p : Pool} {o : ObjId} {n : Name} {d : DelegInfo} {x : ObjId} (h : (hook p o n d).1 = some x) :
     (p.obj o).deleg = some x := by
-  unfold hook at h
-  split at h
-  · simp at h
-  · rename_i y hy
-    split at h
-    · simp at h; rw [hy, h]
-    · simp at h
+  rw [hook_fst_eq] at h; exact h
 
-theorem hook_ok {p : Pool} {o : ObjId} {n : Name} {d : DelegInfo} (h : (hook p o n d).2 = false) :
-    (hook p o n d).1 = (p.obj o).deleg := by
-  unfold hook at h ⊢
-  split
-  · rename_i hy; rw [hy]
-  · rename_i y hy
-    rw [hy] at h
-    simp only at h
-    split at h
-    · rename_i hok; simp [hok, hy]
-    · simp at h
+theorem hook_ok {p : Pool} {o : ObjId} {n : Name} {d : DelegInfo} (_h : (hook p o n d).2 = false) :
+    (hook p o n d).1 = (p.obj o).deleg := hook_fst_eq p o n d
 
 theorem setDict_nondefer_dict {p : Pool} {x : ObjId} {t : Name} {v : Option Val}
     (hnd : NonDefer ((p.obj x).cls.trait t)) {o : ObjId} {n : Name} {d : DelegInfo}
